@@ -65,6 +65,15 @@ func (c *DNSCache) lookup(ctx context.Context, name string) (*dnsCacheEntry, boo
 		return nil, false
 	}
 
+	// A cache without room for a single entry stores nothing (and must not
+	// wait for room that evicting from an empty cache can never make).
+	if c.size <= 0 {
+		return &dnsCacheEntry{
+			addrs:   addrs,
+			expires: time.Now().Add(c.duration),
+		}, false
+	}
+
 	c.mutex.Lock()
 	defer c.mutex.Unlock()
 
